@@ -263,6 +263,23 @@ impl Model for M {
 
 /// position-by-position agreement of the public parse_multi with fresh parses
 pub fn check_sequence(f: &F, inputs: &[&str]) -> Result<(), String> {
+    // the batch supplied through an iterator without any size information and through one with a
+    // zero lower bound must give what the slice iterator gives
+    {
+        let show = |v: &Vec<Result<CV, ()>>| v.iter().map(show_outcome).collect::<Vec<_>>();
+        let conv = |v: Vec<Result<Narsese, narsese::conversion::string::impl_enum::ParseError>>| v.into_iter().map(|r| outcome(&r.map_err(|e| e.to_string()))).collect::<Vec<_>>();
+        let a = quiet_catch(AssertUnwindSafe(|| conv(f.e.parse_multi(inputs.iter().copied()))));
+        let b = quiet_catch(AssertUnwindSafe(|| {
+            let mut it = inputs.iter().copied();
+            conv(f.e.parse_multi(std::iter::from_fn(move || it.next())))
+        }));
+        let c = quiet_catch(AssertUnwindSafe(|| conv(f.e.parse_multi(inputs.iter().copied().filter(|_| true)))));
+        match (&a, &b, &c) {
+            (Ok(x), Ok(y), Ok(z)) if x == y && x == z => {}
+            (Ok(x), Ok(y), Ok(z)) => return Err(format!("parse_multi({inputs:?}) depends on how the inputs are supplied: slice iterator {:?}, from_fn {:?}, filter {:?}", show(x), show(y), show(z))),
+            _ => return Err(format!("parse_multi({inputs:?}) panics for some way of supplying the inputs: slice iterator {:?}, from_fn {:?}, filter {:?}", a.as_ref().map(show), b.as_ref().map(show), c.as_ref().map(show))),
+        }
+    }
     let res = quiet_catch(AssertUnwindSafe(|| f.e.parse_multi(inputs.iter().copied())));
     let res = res.map_err(|p| format!("parse_multi({inputs:?}) panics: {p}"))?;
     if res.len() != inputs.len() {
